@@ -44,7 +44,7 @@ def loadable(name, deps):
     return True
 
 
-def reference(env, pre, deps):
+def reference(env, pre, deps, ipython=False):
     """-> dict(kind='selected', names=[acceptable names]) | dict(kind='import-fails') ;
     plus 'unknown_message': bool."""
     pre_names = [MOD2NAME[m] for m in pre if loadable(MOD2NAME[m], deps)]
@@ -56,6 +56,8 @@ def reference(env, pre, deps):
             return {"kind": "selected", "names": [env], "unknown_message": False}
         return {"kind": "import-fails", "unknown_message": False}
     auto = [n for n, _ in REGISTRY if loadable(n, deps)][0]
+    if ipython:
+        auto = "nobackend"      # interactive sessions default to the no-op backend instead of auto-detection
     return {"kind": "selected", "names": [auto], "unknown_message": env != UNSET}
 
 
@@ -85,11 +87,12 @@ def child_env(env, deps):
 
 
 def run_point(pt):
-    env, pre, deps, poseidon = pt
+    env, pre, deps, poseidon = pt[:4]
+    ipy = len(pt) > 4 and pt[4]
     d = tempfile.mkdtemp(prefix="pv-c19-")
     try:
         e, real_fb = child_env(env, deps)
-        r = subprocess.run([common.PY, CHILD, json.dumps({"preimport": list(pre), "poseidon": poseidon})], cwd=d, env=e,
+        r = subprocess.run([common.PY, CHILD, json.dumps({"preimport": list(pre), "poseidon": poseidon, "ipython": ipy})], cwd=d, env=e,
                            capture_output=True, text=True, start_new_session=True, timeout=120)
         rep = None
         for ln in r.stdout.splitlines():
@@ -104,16 +107,19 @@ def run_point(pt):
 
 
 def judge(res):
-    env, pre, deps, _ = res["pt"]
+    env, pre, deps = res["pt"][:3]
+    ipy = len(res["pt"]) > 4 and res["pt"][4]
     out = []
     if res.get("timeout"):
         return [({"klass": "child-timeout"}, "timeout")]
     if res.get("real_fb") and not deps[0]:
         return []       # a real flatbuffers is installed: the "unavailable" configuration cannot be produced
-    ref = reference(env, pre, deps)
+    ref = reference(env, pre, deps, ipy)
     rep = res["report"]
     base = {"env": "known" if env in NAME2MOD else ("unset" if env == UNSET else "unknown"),
             "pre": "+".join(MOD2NAME[m] for m in pre) or "none"}
+    if ipy:
+        base["interactive"] = True
     if rep is None:
         # the interpreter died while importing pysnark.runtime with an uncaught exception
         if ref["kind"] == "import-fails":
@@ -171,6 +177,11 @@ def points(thorough):
                 if env in ("js", "no", "zkif", "SNARKJS", " snarkjs", "libsnark ", "backend") and (pre or (not thorough and sum(1 for x in deps if not x) > 1)):
                     continue        # near-miss names matter when nothing is pre-imported
                 pts.append((env, pre, deps, False))
+    # interactive sessions (builtin get_ipython present)
+    for env in [UNSET] + [n for n, _ in REGISTRY] + ["bogus"]:
+        for pre in [()] + [(m,) for m in mods]:
+            for deps in ((True, True, True), (False, True, False)):
+                pts.append((env, pre, deps, False, True))
     return pts
 
 
@@ -184,8 +195,8 @@ def run(ctx):
         rep = res.get("report") or {}
         outcomes.add((rep.get("backend_name"), rep.get("module"), res.get("status")))
         for sig, text in judge(res):
-            env, pre, deps, _ = res["pt"]
-            ctx.violation(sig, {"pt": [env, list(pre), list(deps), False]},
+            env, pre, deps = res["pt"][:3]
+            ctx.violation(sig, {"pt": [env, list(pre), list(deps), False] + list(res["pt"][4:])},
                           "PYSNARK_BACKEND=%s pre-imported=%s flatbuffers=%s qaptools=%s libsnark=%s: %s" % (env, list(pre), deps[0], deps[1], deps[2], text))
     from .. import e1
     e1.dedupe_violations(ctx)
@@ -195,7 +206,7 @@ def run(ctx):
     ctx.cov["exhaustive"] = True
     ctx.cov["rule"] = ("configuration = PYSNARK_BACKEND in {unset, 8 registry names, 'bogus', '', and 7 near misses of known names (substring, case, blanks)} x pre-imported modules in "
                        "{none, each registry module, 4 pairs in both import orders} x {FlatBuffers, qaptools executables, libsnark "
-                       "extension} each available or not (quick: at most one missing); one fresh interpreter each; states = "
+                       "extension} each available or not, plus the same with the builtin get_ipython present (interactive session); one fresh interpreter each; states = "
                        "distinct (backend_name, module, exit status)")
     ctx.assumptions += ["libsnark is represented by a stub extension module (only its loadability matters here)",
                         "FlatBuffers availability is modelled by putting the builder shim on PYTHONPATH or not"]
@@ -203,7 +214,7 @@ def run(ctx):
 
 
 def replay(case):
-    env, pre, deps, pos = case["pt"]
-    res = run_point((env, tuple(pre), tuple(deps), pos))
+    env, pre, deps, pos = case["pt"][:4]
+    res = run_point((env, tuple(pre), tuple(deps), pos) + tuple(case["pt"][4:]))
     return {"point": case["pt"], "report": res.get("report"), "stdout": res.get("stdout"),
             "violations": [{"sig": s, "what": t} for s, t in judge(res)]}
